@@ -1,4 +1,5 @@
 #!/bin/bash
+export VERIF_EVIDENCE_DIR=/tmp/verif-scratch-evidence  # keep /verif/evidence for runs against the unchanged /repo
 # usage: seedapply.sh <seed>... : applies each seeded change to /repo, runs the quick checks named in its meta.json,
 # restores /repo, and records what each check reported in seeded/<seed>/detection.txt
 cd /verif
